@@ -90,6 +90,19 @@ func (e editSpec) apply(b []byte) []byte {
 			}
 			k--
 		}
+	case "resplit": // the same residues, in the same order, cut into records differently: the first sequence line of a FASTA file is cut in two
+		for i := 0; i < len(b); {
+			j := bytes.IndexByte(b[i:], '\n')
+			if j < 0 {
+				j = len(b) - i
+			}
+			if line := b[i : i+j]; len(line) >= 2 && line[0] != '>' {
+				m := i + len(line)/2
+				b = append(append(append([]byte(nil), b[:m]...), "\n>cut here\n"...), b[m:]...)
+				break
+			}
+			i += j + 1
+		}
 	case "pad-to": // trailing blank lines up to an exact file size
 		for len(b) < e.Len {
 			b = append(b, '\n')
